@@ -335,6 +335,8 @@ func c20Apply(root any, m c20Mut, idx int, dir string, r *c20Render) any {
 		return c20Set(root, n.path, json.Number("7"), false)
 	case "to_str":
 		return c20Set(root, n.path, "zz", false)
+	case "to_str_braces":
+		return c20Set(root, n.path, "https://h.example/v1}/{version", false)
 	case "to_arr":
 		return c20Set(root, n.path, []any{"zz", json.Number("1")}, false)
 	case "to_obj":
